@@ -55,11 +55,26 @@ static int scenario_function(const std::string& g) {
   check_stale(m, { d1, d2 }, "function");
   return 0;
 }
+// scenario 3: a structure over a base set holds data; the base set is erased (the structure's definition loses its type)
+static int scenario_structure(const std::string& g) {
+  if (g != "pr_prune" && g != "pr_erase") return 2;
+  RSModel m;
+  const auto x1 = m.Emplace(CstType::base);
+  const auto s1 = m.Emplace(CstType::structured, "\xE2\x84\xAC(X1)");
+  TextInterpretation t{}; t.SetInterpretantFor(1, "a"); t.SetInterpretantFor(2, "b"); m.Values().SetBasicText(x1, t);
+  if (!m.Values().SetStructureData(s1, object::Factory::SetV({ 1, 2 }))) { std::printf("scenario could not set the structure data; cannot replay\n"); return 2; }
+  try { m.Erase(x1); }
+  catch (const std::exception& e) { EXPECT(false, "structure: RSModel::Erase of the base set threw %s while pruning the structure that depends on it", e.what()); }
+  const auto left = m.Values().SDataFor(s1);
+  EXPECT(!left.has_value() || left->B().IsEmpty(), "structure: after its base set was erased the structure still shows data %s", left.has_value() ? left->ToString().c_str() : "");
+  return 0;
+}
 int main(int argc, char** argv) {
   if (argc < 2) return 2;
   std::string g = argv[1];
+  if (g == "pr_prune") { if (scenario_structure(g) == 2) return 2; return verdict(); }
   if (g == "pr_resetdependants") return 1;
-  int a = scenario_terms(g); int b = scenario_function(g);
-  if (a == 2 && b == 2) return 2;
+  int a = scenario_terms(g); int b = scenario_function(g); int c = scenario_structure(g);
+  if (a == 2 && b == 2 && c == 2) return 2;
   return verdict();
 }
